@@ -52,6 +52,10 @@ Definition scc_ok (arms : list scc_arm) : bool :=
 Definition adv_codes_ok (amt : list seg_arm) (std : list Z) : bool :=
   forallb (fun c => implb (80 <=? c) (negb (target_eqb (classify amt c) TNone))) std.
 
+(* the arithmetic lists give every standard entry code (2x..5x) a direction *)
+Definition entry_codes_directed (amt : list seg_arm) (std : list Z) : bool :=
+  forallb (fun c => implb (entry_code std c) (negb (target_eqb (classify amt c) TNone))) std.
+
 Definition seg_tables_ok (T : stables) : bool :=
   lists_agree (st_seg_std T) (st_amt_std T)
   && lists_agree (st_seg_iat T) (st_amt_iat T)
@@ -59,7 +63,9 @@ Definition seg_tables_ok (T : stables) : bool :=
   && scc_ok (st_scc_std T) && scc_ok (st_scc_iat T)
   && amount_ok (st_amt_std T) (st_codes T)
   && amount_ok (st_amt_iat T) (st_codes T)
-  && adv_codes_ok (st_amt_adv T) (st_codes T).
+  && adv_codes_ok (st_amt_adv T) (st_codes T)
+  && entry_codes_directed (st_amt_std T) (st_codes T)
+  && entry_codes_directed (st_amt_iat T) (st_codes T).
 
 Lemma classify_notin arms c : ~ In c (all_codes arms) -> classify arms c = TNone.
 Proof.
